@@ -681,6 +681,16 @@ def run_frf_case(sh, srs, g):
     else:
         srs_frq = frf_frq if mode == "qonly-none" else frf_frq / p_peak
         arg = None
+    if g % 6 == 5:
+        # the same request on a very slow time scale (oscillators of 0.0003 .. 0.3 Hz):
+        # the closed form has no absolute frequency in it
+        fscale = float(10.0 ** -r.uniform(2.3, 3.5))
+        frf_frq = frf_frq * fscale
+        if arg is not None:
+            arg = srs_frq = srs_frq * fscale
+        else:       # the documented default, formed from the frequencies as they are now
+            srs_frq = frf_frq if mode == "qonly-none" else frf_frq / p_peak
+        sh.count("cell:frf-slow-time-scale")
     case = {"seed": sh.seed, "frf_g": g, "mode": mode, "Q": Q, "nfrf": nfrf,
             "frf_frq": frf_frq, "srs_frq": arg, "complex": cplx, "getresp": getresp}
     tags = {"func": "srs_frf", "mode": mode, "Q": Q, "single_line": nfrq == 1}
